@@ -14,9 +14,6 @@ NOT_APPLICABLE = {
            "recursion over ir::Node, Peekable, String and hashbrown do not close under Kani (10 min / 6-20 GB) and are "
            "rejected by Verus; stack exhaustion is outside both tools' models; the few numeric helpers that do verify do "
            "not address 'any input yields Ok or Err'",
-    "C17": "expand_replacement/replace* are String/Peekable<Chars> code: the bounded harness that was written "
-           "(j2_expand_replacement_2) does not terminate under CBMC within 10 min / memory cap, and Verus rejects "
-           "Peekable and str byte reasoning; a run that does not terminate is not evidence",
     "C08": "acceptance of exactly L(ES2025 Pattern[flags]) needs a grammar specification and a contract over the whole "
            "recursive-descent parser (Peekable/HashMap/String: rejected by Verus, intractable through try_parse in "
            "Kani); the table-like pieces are discharged under C18/C12",
